@@ -861,7 +861,7 @@ TF_BY_KIND = {
     'list': ['ident', 'list', 'list', 'sorted', 'short'],
     'vtuple': ['ident', 'tuple', 'tuple', 'short'],
     'tuple': ['ident', 'tuple', 'tuple'],
-    'dict': ['ident', 'dict', 'dict', 'short'],
+    'dict': ['ident', 'dict', 'dict'],     # no length validator: completion adds keys
     'object': ['ident'],
     'any': ['ident'],
 }
